@@ -30,7 +30,7 @@ ASSUMPTIONS = [
     'a corrupted PEL that is still self-consistent may legitimately decode - only proper prefixes of '
     'well-formed PELs must be rejected',
     'TracedStream subclasses the real DataStream and calls super(), so the real range checks run',
-    'hang detection: 5 s alarm per in-process decode, 20 s per subprocess',
+    'hang detection: 5 s alarm per in-process decode, 60 s per subprocess',
 ]
 CASE_TIMEOUT = 600
 PY = '/venv/bin/python'
@@ -263,7 +263,7 @@ def _cli_case(case):
             rec = dict(kind='cli', shape_ok=True, prefix=prefix, opt=opt, extra=extra,
                        input=h if len(h) <= 400 else h[:400] + '...')
             try:
-                p = subprocess.run(cmd, stdout=subprocess.PIPE, stderr=subprocess.PIPE, env=env, timeout=20)
+                p = subprocess.run(cmd, stdout=subprocess.PIPE, stderr=subprocess.PIPE, env=env, timeout=60)
                 out = p.stdout.decode('utf-8', 'replace')
                 err = p.stderr.decode('utf-8', 'replace')
                 rec['exit'] = p.returncode if -1000 < p.returncode < 1000 else 999
